@@ -97,6 +97,7 @@ def tasks(tier, seed):
     out = [('bfs',)]
     out += [('reentrant', i) for i in range(reentry.N_OUTERS)]
     out += [('soak', k) for k in SOAK_KINDS]
+    out += [('preimport', i) for i in range(len(PRE_IMPORT))]
     out += [('hist', i, depth) for i in range(len(EVENTS))]
     if depth < 3:
         # every depth-3 history over a core of 16 events (one per kind of
@@ -422,6 +423,123 @@ def explore_histories(ctx, first, depth):
             ctx.case(('hist', hist), True, sample=lambda: {
                 'history': [EVENTS[i][0] for i in hist]})
             run_history(ctx, hist)
+
+
+# ---------------------------------------------------------------------------
+# Environment set up BEFORE the library is imported
+
+
+def _pre_decimal_default():
+    import decimal
+    decimal.DefaultContext.prec = 6
+    decimal.DefaultContext.rounding = decimal.ROUND_DOWN
+    decimal.setcontext(decimal.DefaultContext)
+
+
+def _pre_decimal_traps():
+    import decimal
+    decimal.DefaultContext.prec = 9
+    decimal.DefaultContext.traps[decimal.Inexact] = True
+    decimal.DefaultContext.traps[decimal.Rounded] = True
+    decimal.DefaultContext.Emax = 99
+    decimal.DefaultContext.Emin = -99
+
+
+def _pre_logging_debug():
+    logging.disable(logging.NOTSET)
+    logging.basicConfig(level=logging.DEBUG, handlers=[lib._Sink()],
+                        force=True)
+
+
+def _pre_warnings_error():
+    import warnings
+    warnings.simplefilter('error')
+
+
+def _pre_recursion_limit():
+    sys.setrecursionlimit(400)
+
+
+PRE_IMPORT = [('decimal.DefaultContext.prec = 6, ROUND_DOWN, made current',
+               _pre_decimal_default),
+              ('decimal.DefaultContext traps Inexact / Rounded, Emax 99',
+               _pre_decimal_traps),
+              ('logging configured at DEBUG', _pre_logging_debug),
+              ('warnings raised as errors', _pre_warnings_error),
+              ('recursion limit 400', _pre_recursion_limit)]
+
+
+def preimport(ctx, which):
+    """The application configures the process FIRST and imports pamqp
+    afterwards (whatever the library captures at import time - a default
+    context, a logger level, a filter list - comes from that configuration):
+    in a forked child the configuration is applied, pamqp is imported anew,
+    and every event must give its baseline."""
+    import pickle
+    label, configure = PRE_IMPORT[which]
+    pristine()
+    r, w = os.pipe()
+    pid = os.fork()
+    if pid == 0:
+        code = 0
+        try:
+            os.close(r)
+            out = []
+            try:
+                configure()
+                p = libstate.fresh_import()
+                for idx, (name, ev) in enumerate(EVENTS):
+                    if name in TOGGLES or name.startswith('env:'):
+                        continue
+                    if which == 3 and 'deprecated' in name:
+                        pass
+                    try:
+                        res = ev(p, lambda o: None)
+                    except Exception as exc:  # noqa
+                        res = ['event raised', type(exc).__name__,
+                               str(exc)[:200]]
+                    out.append((idx, json.loads(json.dumps(res))))
+            except BaseException as exc:  # noqa
+                out.append((-1, repr(exc)))
+            with os.fdopen(w, 'wb') as fh:
+                pickle.dump(out, fh)
+        except BaseException:  # noqa
+            code = 3
+        finally:
+            os._exit(code)
+    os.close(w)
+    with os.fdopen(r, 'rb') as fh:
+        data = fh.read()
+    os.waitpid(pid, 0)
+    try:
+        out = pickle.loads(data)
+    except Exception:  # noqa
+        out = [(-1, 'no result from the child process')]
+    for idx, res in out:
+        ctx.case(('preimport', which, idx), True, sample={
+            'configured_before_import': label,
+            'event': EVENTS[idx][0] if idx >= 0 else 'import'})
+        ctx.calls()
+        ctx.valid()
+        if idx < 0:
+            ctx.violation('preimport|{}|import'.format(which),
+                          'with {} before the import, importing pamqp or '
+                          'running the events failed: {}'.format(label, res),
+                          {'kind': 'preimport', 'which': which}, 'import',
+                          res)
+            continue
+        want = _BASE[(idx, False)]
+        if res != want:
+            ctx.outcome('environment-dependent')
+            ctx.violation('preimport|{}|{}'.format(which, idx),
+                          'process configured ({}) BEFORE pamqp was '
+                          'imported: event "{}" gives {} instead of {}'
+                          .format(label, EVENTS[idx][0], short(res, 200),
+                                  short(want, 200)),
+                          {'kind': 'preimport', 'which': which},
+                          short(want, 300), short(res, 300))
+        else:
+            ctx.outcome('ok')
 
 
 # ---------------------------------------------------------------------------
@@ -842,6 +960,32 @@ HARNESSES += [
             lambda: p.encode.field_table(_FRESH_B).hex()[-64:]))], 1, 1,
      {'cold': False}),
 ]
+def _nested(depth, leaf):
+    v = leaf
+    for i in range(depth):
+        v = {'k': v} if i % 2 else [v]
+    return {'d': v}
+
+
+# both threads deep inside nested containers at the same time (a depth or
+# size account kept per process instead of per call adds them up)
+_DEEP_A = c16events.refcodec.enc_table(_nested(130, 'a'))
+_DEEP_B = c16events.refcodec.enc_table(_nested(130, 'b'))
+_DEEP_OBJ_A, _DEEP_OBJ_B = _nested(130, 'a'), _nested(130, 'b')
+HARNESSES += [
+    ('decode nesting depth 130 || decode nesting depth 130', [
+        _call('decode.field_table(deep A)', lambda p: _try(
+            lambda: _digest(p.decode.field_table(_DEEP_A)))),
+        _call('decode.field_table(deep B)', lambda p: _try(
+            lambda: _digest(p.decode.field_table(_DEEP_B))))], 1, 1,
+     {'cold': False}),
+    ('encode nesting depth 130 || encode nesting depth 130', [
+        _call('encode.field_table(deep A)', lambda p: _try(
+            lambda: p.encode.field_table(_DEEP_OBJ_A).hex()[-40:])),
+        _call('encode.field_table(deep B)', lambda p: _try(
+            lambda: p.encode.field_table(_DEEP_OBJ_B).hex()[-40:]))], 1, 1,
+     {'cold': False}),
+]
 _BIG_A, _BIG_B = _fresh_table('c', 300), _fresh_table('d', 300)
 _ENC_BIG_A = c16events.refcodec.enc_table(_BIG_A)
 _ENC_BIG_B = c16events.refcodec.enc_table(_BIG_B)
@@ -1088,6 +1232,8 @@ def run(task, ctx):
             reentry.explore(ctx, task[1])
         elif kind == 'soak':
             soak(ctx, task[1])
+        elif kind == 'preimport':
+            preimport(ctx, task[1])
         elif kind == 'cold':
             explore_schedules(ctx, task[1], (task[2], COLD_SHARDS), task[3],
                               cold=True)
@@ -1112,7 +1258,9 @@ def finish(merged, tier, seed):
 
 def replay(case, ctx):
     baselines()
-    if case['kind'] == 'soak':
+    if case['kind'] == 'preimport':
+        preimport(ctx, case['which'])
+    elif case['kind'] == 'soak':
         soak(ctx, case['soak'])
     elif case['kind'] == 'reentrant':
         reentry.explore(ctx, case['outer'])
